@@ -6,7 +6,7 @@ use std::collections::BTreeSet;
 use std::rc::Rc;
 
 use memterm::modes::DECSCNM;
-use memterm::screen::{CharOpts, Charset, Cursor, Margins, Savepoint, Screen};
+use memterm::screen::{CharOpts, Charset, Savepoint, Screen};
 
 use crate::prng::splitmix;
 
@@ -354,37 +354,34 @@ pub fn cell_str(c: &Cell) -> String {
 /// Deep copy of a Screen built from its public fields (Screen is not Clone). Used so that
 /// oracles can call display() or twin operations without perturbing the run.
 pub fn clone_screen(s: &Screen) -> Screen {
-    Screen {
-        savepoints: s
-            .savepoints
-            .iter()
-            .map(|p| Savepoint {
-                cursor: p.cursor.clone(),
-                g0_charset: p.g0_charset,
-                g1_charset: p.g1_charset,
-                charset: p.charset,
-                origin: p.origin,
-                wrap: p.wrap,
-            })
-            .collect(),
-        columns: s.columns,
-        lines: s.lines,
-        dirty: s.dirty.clone(),
-        margins: s.margins.map(|m| Margins { top: m.top, bottom: m.bottom }),
-        buffer: s.buffer.clone(),
-        mode: s.mode.clone(),
-        title: s.title.clone(),
-        icon_name: s.icon_name.clone(),
-        charset: s.charset,
-        g0_charset: s.g0_charset,
-        g1_charset: s.g1_charset,
-        tabstops: s.tabstops.clone(),
-        cursor: Cursor {
-            x: s.cursor.x,
-            y: s.cursor.y,
-            attr: s.cursor.attr.clone(),
-            hidden: s.cursor.hidden,
-        },
-        saved_columns: s.saved_columns,
-    }
+    // Built with Screen::new + field assignment rather than a struct literal, so that a
+    // private field added to Screen by a later change does not break the harness build.
+    let mut c = Screen::new(s.columns, s.lines);
+    c.savepoints = s
+        .savepoints
+        .iter()
+        .map(|p| Savepoint {
+            cursor: p.cursor.clone(),
+            g0_charset: p.g0_charset,
+            g1_charset: p.g1_charset,
+            charset: p.charset,
+            origin: p.origin,
+            wrap: p.wrap,
+        })
+        .collect();
+    c.columns = s.columns;
+    c.lines = s.lines;
+    c.dirty = s.dirty.clone();
+    c.margins = s.margins;
+    c.buffer = s.buffer.clone();
+    c.mode = s.mode.clone();
+    c.title = s.title.clone();
+    c.icon_name = s.icon_name.clone();
+    c.charset = s.charset;
+    c.g0_charset = s.g0_charset;
+    c.g1_charset = s.g1_charset;
+    c.tabstops = s.tabstops.clone();
+    c.cursor = s.cursor.clone();
+    c.saved_columns = s.saved_columns;
+    c
 }
